@@ -156,6 +156,7 @@ class ATSPEnv(RL4COEnvBase):
 
     @staticmethod
     def check_solution_validity(td: TensorDict, actions: torch.Tensor):
+        assert actions.size(1) == td["cost_matrix"].size(-1), "Invalid tour: wrong number of nodes"
         assert (
             torch.arange(actions.size(1), out=actions.data.new())
             .view(1, -1)
